@@ -5,25 +5,16 @@ open Geo
 #print axioms T05_1_addEdge_dimMismatch_iff
 #print axioms T05_1_addEdge_contraction
 #print axioms T05_1_locate_nodes
-#print axioms getD_append_lt
-#print axioms getD_append_len
 #print axioms inv_empty
 #print axioms inv_addNode
 #print axioms inv_locate
-#print axioms getD_set
 #print axioms inv_shrink
 #print axioms inv_addEdge'
 #print axioms T05_2_reachable_inv
 #print axioms T05_4_out_order
-#print axioms calc_fold_r1
-#print axioms calc_fold_r2
 #print axioms T05_4_cov_part
 #print axioms T05_4_con_part
-#print axioms foldl_mul_eq
-#print axioms pairProd_ofFn
-#print axioms sgn_of_ne
 #print axioms T05_6_eps_perm
-#print axioms foldl_zero_of_mem
 #print axioms T05_6_eps_repeated
 #print axioms T05_6_eps_range
 #print axioms T05_6_eps_identity
